@@ -83,6 +83,29 @@ theorem c12_read_deadline (c : Cfg) (k : Nat) (o : TNode) (now : Int)
     absN (calcExpiresAtAfterRead (cfgOf c) o now) = { absN o with exp := Spec.expAfterRead c now k (absN o) } :=
   read_refines c k o now hnow hkey hvis hmax hr
 
+/-- C12: SetExpiresAfter — only a visible entry, only a positive duration, the deadline is `now + d` saturated -/
+theorem c12_setExpiresAfter_refines (c : Cfg) (s : Spec.State) (t : Tbl) (k : Nat) (d : Int) (hs : s.m = absT t)
+    (hnow : -4611686018427387904 < s.now ∧ s.now < 4611686018427387904)
+    (hwf : ∀ o, lookup t k = some o → NodeOk k o) :
+    MapEq (absT (setExpiresAfter (cfgOf c) t k d s.now)) (Spec.setExpiresAfter c s k d).m :=
+  setExpiresAfter_refines c s t k d hs hnow hwf
+
+/-- C12: SetRefreshableAfter — the entry physically present (expired or not), only a positive duration -/
+theorem c12_setRefreshableAfter_refines (c : Cfg) (s : Spec.State) (t : Tbl) (k : Nat) (d : Int) (hs : s.m = absT t)
+    (hnow : -4611686018427387904 < s.now ∧ s.now < 4611686018427387904)
+    (hwf : ∀ o, lookup t k = some o → NodeOk k o) :
+    MapEq (absT (setRefreshableAfter (cfgOf c) t k d s.now)) (Spec.setRefreshableAfter c s k d).m :=
+  setRefreshableAfter_refines c s t k d hs hnow hwf
+
+/-- the tests of the two explicit setters as the code has them -/
+theorem c12_gen_explicit_setters (w a b : Bool) (d cur : BitVec 64) :
+    Gen.CacheRead.cache_SetExpiresAfter_c0 w d = (!w || BitVec.sle d 0#64) ∧
+    Gen.CacheRead.cache_SetExpiresAfter_c1 a b = (b || a) ∧
+    Gen.CacheRead.cache_SetRefreshableAfter_c0 w d = (!w || BitVec.sle d 0#64) ∧
+    Gen.CacheRead.cache_SetRefreshableAfter_c1 a = a ∧
+    Gen.CacheRead.cache_SetRefreshableAfter_c2 cur d = (BitVec.slt 0#64 d && (cur != d)) :=
+  ⟨rfl, rfl, rfl, rfl, rfl⟩
+
 /-! ### the model's tests are the code's (regenerated from cache_impl.go) -/
 
 /-- the model's deadlineAfter is the code's (Gen.Deadline, int64 semantics with explicit wrap) on int64 arguments -/
